@@ -48,4 +48,72 @@ theorem items_append (a b : List Nat) (ha : a ∈ specTexts) : items (a ++ b) = 
     simp only [Option.map_some, itemsAux_nil, List.append_nil, List.cons_append, List.append_assoc]
     rw [StrftimeL.itemsAux_fuel false (a.length + b.length) (b.length + 1) b (by omega) (by omega)]
 
+/-! ### whole format strings -/
+
+/-- a format string that is a sequence of complete documented specifiers, followed by anything -/
+theorem items_flatten (chunks : List (List Nat)) (hc : ∀ a ∈ chunks, a ∈ specTexts) (b : List Nat) :
+    items (chunks.flatten ++ b) = (chunks.map items).flatten ++ items b := by
+  induction chunks with
+  | nil => rfl
+  | cons a rest ih =>
+    rw [List.flatten_cons, List.append_assoc, items_append a _ (hc a (by simp)),
+      ih (fun x hx => hc x (List.mem_cons_of_mem _ hx))]
+    simp only [List.map_cons, List.flatten_cons, List.append_assoc]
+
+/-! ### unknown and malformed specifiers (strict mode) -/
+
+theorem specTable_none_of_gt (c : Nat) (h : 122 ≤ c) : specTable c = none := by
+  unfold specTable
+  split <;> first | rfl | omega
+
+/-- the byte after `%` is not a modifier, not one of `z : . 3 6 9`, and has no arm (every non-ASCII
+lead byte, every undocumented letter): the whole rest of the string is one `Item::Error` -/
+theorem unknown_letter (c : Nat) (rest : List Nat) (hs : specTable c = none)
+    (hc : c ∉ [45, 48, 95, 35, 122, 58, 46, 51, 54, 57]) : items (37 :: c :: rest) = [Item.error] := by
+  simp only [List.mem_cons, List.mem_nil_iff, or_false, not_or] at hc
+  obtain ⟨h1, h2, h3, h4, h5, h6, h7, h8, h9, h10⟩ := hc
+  have hp : parse_next_item false (37 :: c :: rest) = some ([], Item.error, []) := by
+    simp only [parse_next_item, nextCh, padOf, h1, h2, h3, if_false, Option.isSome_none, Bool.false_or,
+      show (c == 35) = false from by simpa using h4, Bool.false_eq_true, Bool.false_and, specArm, h5, h6, h7, h8, h9, h10,
+      hs, error, Bool.not_false, if_true]
+  unfold items
+  rw [List.length_cons, itemsAux, hp]
+  simp only [itemsAux_nil, List.nil_append]
+
+/-- a padding modifier in front of a byte without an arm -/
+theorem unknown_after_modifier (m c : Nat) (rest : List Nat) (hm : m ∈ [45, 48, 95]) (hs : specTable c = none)
+    (hc : c ∉ [122, 58, 46, 51, 54, 57]) : items (37 :: m :: c :: rest) = [Item.error] := by
+  simp only [List.mem_cons, List.mem_nil_iff, or_false, not_or] at hc
+  obtain ⟨h5, h6, h7, h8, h9, h10⟩ := hc
+  have hm' : (padOf m).isSome = true ∧ (m == 35) = false ∧ Scan.charLen m = 1 := by
+    simp only [List.mem_cons, List.mem_nil_iff, or_false] at hm
+    rcases hm with rfl | rfl | rfl <;> decide
+  obtain ⟨hm1, hm2, hm3⟩ := hm'
+  have hp : parse_next_item false (37 :: m :: c :: rest) = some ([], Item.error, []) := by
+    simp only [parse_next_item, nextCh, hm1, hm2, hm3, Bool.true_or, if_true, Nat.sub_self, List.drop_zero,
+      Bool.false_eq_true, if_false, Bool.false_and, specArm, h5, h6, h7, h8, h9, h10, hs, error, Bool.not_false]
+    split <;> rfl
+  unfold items
+  rw [List.length_cons, itemsAux, hp]
+  simp only [itemsAux_nil, List.nil_append]
+
+/-- the finite part: truncated specifiers, and every one- and two-byte continuation of `%`, of
+`%` + modifier, of `%.`, `%.3`, `%3` … is `Item::Error` unless the bytes are a documented specifier -/
+theorem unknown_fin :
+    (∀ a ∈ [[37], [37, 45], [37, 48], [37, 95], [37, 35], [37, 46], [37, 51], [37, 54], [37, 57], [37, 46, 51],
+            [37, 46, 54], [37, 46, 57], [37, 58], [37, 58, 58], [37, 58, 58, 58], [37, 45, 46], [37, 35, 58],
+            [37, 45, 51], [37, 45, 58]],
+      (items a).head? = some Item.error) ∧
+    (∀ c < 256, items [37, c] = [Item.error] ∨ [37, c] ∈ specTextsLit) ∧
+    (∀ m ∈ [45, 48, 95, 35], ∀ c < 256, (items [37, m, c]).head? = some Item.error ∨ [37, m, c] ∈ specTextsLit) ∧
+    (∀ c < 256, (items [37, 46, c]).head? = some Item.error ∨ [37, 46, c] ∈ specTextsLit) ∧
+    (∀ d ∈ [51, 54, 57], ∀ c < 256,
+      ((items [37, 46, d, c]).head? = some Item.error ∨ [37, 46, d, c] ∈ specTextsLit) ∧
+      ((items [37, d, c]).head? = some Item.error ∨ [37, d, c] ∈ specTextsLit)) ∧
+    (∀ c < 256, (items [37, 58, c]).head? = some Item.error ∨ [37, 58, c] ∈ specTextsLit) ∧
+    (∀ c < 256, (items [37, 58, 58, c]).head? = some Item.error ∨ [37, 58, 58, c] ∈ specTextsLit) ∧
+    (∀ c < 256, (items [37, 58, 58, 58, c]).head? = some Item.error ∨ [37, 58, 58, 58, c] ∈ specTextsLit) := by
+  refine ⟨by decide +kernel, by decide +kernel, by decide +kernel, by decide +kernel, by decide +kernel,
+    by decide +kernel, by decide +kernel, by decide +kernel⟩
+
 end Chrono.Proofs.StrftimeAppend
